@@ -120,6 +120,32 @@ static void dump(Scene &sc, int tx, bool processed)
             if (ce->type() == ConnEndJunction) { Point q = ce->junction()->position(); printf(" jpos %.17g %.17g", q.x, q.y); }
             printf("\n");
         }
+        // what the public ConnRef::endpointConnEnds() reports: EPCE conn side S <shape> <class> | J <junction> | P, then position()
+        if (c->m_src_vert && c->m_dst_vert)
+        {
+            std::pair<ConnEnd, ConnEnd> ep = c->endpointConnEnds();
+            const ConnEnd *two[2] = { &ep.first, &ep.second };
+            for (int s = 0; s < 2; ++s)
+            {
+                const ConnEnd &e = *two[s];
+                printf("EPCE %zu %d", i, s);
+                if (e.shape())
+                {
+                    int idx = -1;
+                    for (size_t k = 0; k < sc.shapes.size(); ++k) if (sc.shapeAlive[k] && sc.shapes[k] == e.shape()) idx = (int) k;
+                    printf(" S %d %u", idx, e.pinClassId());
+                }
+                else if (e.junction())
+                {
+                    int idx = -1;
+                    for (size_t k = 0; k < sc.juncs.size(); ++k) if (sc.juncs[k] == e.junction()) idx = (int) k;
+                    printf(" J %d", idx);
+                }
+                else printf(" P");
+                Point q = e.position();
+                printf(" pos %.17g %.17g\n", q.x, q.y);
+            }
+        }
         const PolyLine &rt = c->displayRoute();
         printf("ROUTE %zu %zu", i, rt.size());
         for (size_t k = 0; k < rt.size(); ++k) printf(" %.17g %.17g", rt.ps[k].x, rt.ps[k].y);
@@ -267,7 +293,7 @@ int main(int argc, char **argv)
             {
                 int c, side; is >> c >> side;
                 ConnEnd e = readEnd(is, sc);
-                sc.conns[c]->setEndpoint(side == 0 ? VertID::src : VertID::tar, e);
+                if (side == 0) sc.conns[c]->setSourceEndpoint(e); else sc.conns[c]->setDestEndpoint(e);
             }
             else if (cmd == "TX")
             {
